@@ -13,16 +13,11 @@ What is modelled (file : function of /repo):
 The tables, the `__str__`/`token_type` f-strings, the running-code lines, the metadata whitelists
 come from `FaxVerif.Generated.C06Tables`, which is rewritten from the source on every run.
 
-Texts are `List Char` (no `String` lemma is needed in any proof); everything is total and
-computable; no Mathlib/Batteries.
+Texts are `List Char` (`t!"abc"` is the list literal; no `String` occurs in a term the kernel
+evaluates); everything is total and computable; no Mathlib/Batteries.
 -/
 import FaxVerif.Generated.C06Tables
 namespace FaxVerif.C06
-
-abbrev Text := List Char
-
-/-- a string literal of this file as `Text` -/
-abbrev tx (s : String) : Text := s.toList
 
 /-! ## whole-word substitution of one name (`_replace_whole_words` with a single pair)
 
@@ -59,10 +54,10 @@ def substWord (w r s : Text) : Text := fill r (holes w s)
 def hasWord (w s : Text) : Bool := (tokens s).contains w
 
 /-- the parameter name `get_collection` gives the bank (`r.args = ["collection_name"]`) -/
-def paramName : Text := tx "collection_name"
+def paramName : Text := t!"collection_name"
 
 /-- the result variable of the inline block (`r.result = "result"`) -/
-def resultName : Text := tx "result"
+def resultName : Text := t!"result"
 
 /-! ## names and literals -/
 
@@ -87,14 +82,14 @@ def cppLit (s : Text) : Text := '"' :: (s.flatMap escChar ++ ['"'])
 
 /-! ## f-string pieces -/
 
-def lookupHole (env : List (String × Text)) (n : String) : Text :=
+def lookupHole (env : List (Text × Text)) (n : Text) : Text :=
   match env.find? (fun p => p.1 == n) with
   | some p => p.2
-  | none => tx "<unknown hole " ++ n.toList ++ tx ">"
+  | none => t!"<unknown hole " ++ n ++ t!">"
 
-def render (env : List (String × Text)) : List Piece → Text
+def render (env : List (Text × Text)) : List Piece → Text
   | [] => []
-  | .lit s :: ps => s.toList ++ render env ps
+  | .lit s :: ps => s ++ render env ps
   | .hole n :: ps => lookupHole env n ++ render env ps
 
 /-! ## backends and collection specifications -/
@@ -113,7 +108,7 @@ def Backend.coder : Backend → CoderInfo
   | .atlas => Gen.atlasCoder | .cmsAod => Gen.cmsAodCoder | .cmsMiniaod => Gen.cmsMiniaodCoder
 
 /-- the name `build_collection_callback` of this backend's executor insists on -/
-def Backend.execName : Backend → String
+def Backend.execName : Backend → Text
   | .atlas => Gen.atlasExecutorBackend | .cmsAod => Gen.cmsAodExecutorBackend | .cmsMiniaod => Gen.cmsMiniaodExecutorBackend
 
 def allClasses : List ClassInfo := Gen.atlasClasses ++ Gen.cmsAodClasses ++ Gen.cmsMiniaodClasses
@@ -132,25 +127,25 @@ structure CollSpec where
   tokenType : Option (List Piece)
 deriving DecidableEq, Repr, Inhabited
 
-def findClass (cs : List ClassInfo) (n : String) : Option ClassInfo := cs.find? (fun c => c.cls == n)
+def findClass (cs : List ClassInfo) (n : Text) : Option ClassInfo := cs.find? (fun c => c.cls == n)
 
 def Row.toSpec (cs : List ClassInfo) (r : Row) : Option CollSpec :=
   match findClass cs r.cls with
   | none => none
   | some ci => some {
-      backend := r.backend.toList, name := r.name.toList, includes := r.includes.map String.toList,
-      container := r.container.toList, element := r.element.map String.toList,
-      depthType := r.depthType, depthElem := r.depthElem, libraries := r.libraries.map String.toList,
+      backend := r.backend, name := r.name, includes := r.includes,
+      container := r.container, element := r.element,
+      depthType := r.depthType, depthElem := r.depthElem, libraries := r.libraries,
       str := ci.str, tokenType := ci.tokenType }
 
 /-- the `*_collections` list of the backend as specifications -/
 def builtins (b : Backend) : List CollSpec := b.rows.filterMap (Row.toSpec b.classes)
 
 /-- `str(container_type)`: the C++ type the variable and `result` are declared with -/
-def CollSpec.tyStr (c : CollSpec) : Text := render [("self.type", c.container)] c.str
+def CollSpec.tyStr (c : CollSpec) : Text := render [(t!"self.type", c.container)] c.str
 
 /-- `container_type.token_type()` -/
-def CollSpec.tokenTypeStr (c : CollSpec) : Option Text := c.tokenType.map (render [("self.type", c.container)])
+def CollSpec.tokenTypeStr (c : CollSpec) : Option Text := c.tokenType.map (render [(t!"self.type", c.container)])
 
 /-! ## metadata declarations (`process_metadata`) -/
 
@@ -182,35 +177,30 @@ def Md.get? (md : Md) (k : Text) : Option MdVal :=
   | some p => some p.2
   | none => none
 
-def Md.has (md : Md) (k : String) : Bool := (md.get? k.toList).isSome
+def Md.has (md : Md) (k : Text) : Bool := (md.get? k).isSome
 
 /-- `md.keys()` -/
-def Md.keys (md : Md) : List Text := tx "metadata_type" :: md.fields.map (·.1)
+def Md.keys (md : Md) : List Text := t!"metadata_type" :: md.fields.map (·.1)
 
 /-- Python truthiness of the values we model -/
 def MdVal.truthy : MdVal → Bool
   | .str s => !s.isEmpty | .strs l => !l.isEmpty | .bool b => b
 
-def Md.req (md : Md) (k : String) : Except Err MdVal :=
-  match md.get? k.toList with
-  | some v => .ok v
-  | none => .error (.missingKey k.toList)
-
-def Md.reqStr (md : Md) (k : String) : Except Err Text :=
-  match md.get? k.toList with
+def Md.reqStr (md : Md) (k : Text) : Except Err Text :=
+  match md.get? k with
   | some (.str s) => .ok s
-  | some _ => .error (.badValue k.toList)
-  | none => .error (.missingKey k.toList)
+  | some _ => .error (.badValue k)
+  | none => .error (.missingKey k)
 
-def Md.reqStrs (md : Md) (k : String) : Except Err (List Text) :=
-  match md.get? k.toList with
+def Md.reqStrs (md : Md) (k : Text) : Except Err (List Text) :=
+  match md.get? k with
   | some (.strs l) => .ok l
-  | some _ => .error (.badValue k.toList)
-  | none => .error (.missingKey k.toList)
+  | some _ => .error (.badValue k)
+  | none => .error (.missingKey k)
 
-def firstUnexpected (wl : List String) : List Text → Option Text
+def firstUnexpected (wl : List Text) : List Text → Option Text
   | [] => none
-  | k :: ks => if wl.any (fun w => w.toList == k) then firstUnexpected wl ks else some k
+  | k :: ks => if k ∈ wl then firstUnexpected wl ks else some k
 
 def mkSpec (backend name : Text) (incs : List Text) (ci : ClassInfo) (ct : Text) (et : Option Text) (libs : List Text) : CollSpec :=
   { backend, name, includes := incs, container := ct, element := et, depthType := ci.depthType, depthElem := ci.depthElem,
@@ -219,25 +209,25 @@ def mkSpec (backend name : Text) (incs : List Text) (ci : ClassInfo) (ct : Text)
 /-- the contains_collection / element_type consistency test -/
 def flagStage (br : MdBranch) (md : Md) : Except Err Unit :=
   if br.flagCheck then
-    match md.get? (tx "contains_collection") with
-    | none => .error (.missingKey (tx "contains_collection"))
+    match md.get? (t!"contains_collection") with
+    | none => .error (.missingKey (t!"contains_collection"))
     | some flag =>
-      if (flag.truthy && !md.has "element_type") || (!flag.truthy && md.has "element_type") then
+      if (flag.truthy && !md.has t!"element_type") || (!flag.truthy && md.has t!"element_type") then
         .error .elementTypeMismatch
       else .ok ()
   else .ok ()
 
-def classStage (cls : String) : Except Err ClassInfo :=
+def classStage (cls : Text) : Except Err ClassInfo :=
   match findClass allClasses cls with
   | some ci => .ok ci
   | none => .error .unknownClass
 
 /-- `C(md["container_type"], md["element_type"])` -/
-def collStage (md : Md) (cls : String) : Except Err (ClassInfo × Text × Option Text) :=
-  match md.reqStr "container_type" with
+def collStage (md : Md) (cls : Text) : Except Err (ClassInfo × Text × Option Text) :=
+  match md.reqStr t!"container_type" with
   | .error e => .error e
   | .ok ct =>
-    match md.reqStr "element_type" with
+    match md.reqStr t!"element_type" with
     | .error e => .error e
     | .ok et =>
       match classStage cls with
@@ -245,8 +235,8 @@ def collStage (md : Md) (cls : String) : Except Err (ClassInfo × Text × Option
       | .ok ci => .ok (ci, ct, some et)
 
 /-- `S(md["container_type"])` -/
-def singleStage (md : Md) (cls : String) : Except Err (ClassInfo × Text × Option Text) :=
-  match md.reqStr "container_type" with
+def singleStage (md : Md) (cls : Text) : Except Err (ClassInfo × Text × Option Text) :=
+  match md.reqStr t!"container_type" with
   | .error e => .error e
   | .ok ct =>
     match classStage cls with
@@ -257,8 +247,8 @@ def singleStage (md : Md) (cls : String) : Except Err (ClassInfo × Text × Opti
 def containerStage (br : MdBranch) (md : Md) : Except Err (ClassInfo × Text × Option Text) :=
   match br.build with
   | .byFlag collCls singleCls =>
-    match md.get? (tx "contains_collection") with
-    | none => .error (.missingKey (tx "contains_collection"))
+    match md.get? (t!"contains_collection") with
+    | none => .error (.missingKey (t!"contains_collection"))
     | some flag => if flag.truthy then collStage md collCls else singleStage md singleCls
   | .always collCls => collStage md collCls
 
@@ -282,14 +272,14 @@ def validateWith (br : MdBranch) (md : Md) : Except Err CollSpec :=
         match libsStage br md with
         | .error e => .error e
         | .ok libs =>
-          match md.reqStr "name" with
+          match md.reqStr t!"name" with
           | .error e => .error e
           | .ok name =>
-            match md.reqStrs "include_files" with
+            match md.reqStrs t!"include_files" with
             | .error e => .error e
-            | .ok incs => .ok (mkSpec br.specBackend.toList name incs ci ct et libs)
+            | .ok incs => .ok (mkSpec br.specBackend name incs ci ct et libs)
 
-def findBranch (t : Text) : Option MdBranch := Gen.mdBranches.find? (fun b => b.mdType.toList == t)
+def findBranch (t : Text) : Option MdBranch := Gen.mdBranches.find? (fun b => b.mdType == t)
 
 /-- `process_metadata` on one collection declaration -/
 def validate (md : Md) : Except Err CollSpec :=
@@ -309,7 +299,7 @@ def validateAll : List Md → Except Err (List CollSpec)
 /-- `build_collection_callback` for every declared collection -/
 def checkBackends (b : Backend) : List CollSpec → Except Err Unit
   | [] => .ok ()
-  | c :: cs => if c.backend = b.execName.toList then checkBackends b cs else .error (.backendRefused c.backend)
+  | c :: cs => if c.backend = b.execName then checkBackends b cs else .error (.backendRefused c.backend)
 
 /-- the collection functions an executor of backend `b` knows after the metadata `mds` has been
 processed: the built-ins, then the declared ones (`method_names.update`) -/
@@ -352,12 +342,12 @@ def getCollection (cd : CoderInfo) (c : CollSpec) (args : List Arg) (n : Nat) : 
     let perUse := cd.tokenPerUse
     let tok : Text := match cd.tokenPrefix with
       | none => []
-      | some p => if perUse then uniqueName p.toList n else uniqueName p.toList 0   -- class attribute drawn once at import
+      | some p => if perUse then uniqueName p n else uniqueName p 0   -- class attribute drawn once at import
     let n' := if perUse then n + 1 else n
-    let code := cd.runningCode.map (render [("container_type", c.tyStr), ("self.t_name", tok)])
+    let code := cd.runningCode.map (render [(t!"container_type", c.tyStr), (t!"self.t_name", tok)])
     let fields := match cd.tokenInit, c.tokenTypeStr with
-      | some init, some tt => [(tt, tok, render [("md.container_type.type", c.container)] init)]
-      | some init, none => [(tx "None", tok, render [("md.container_type.type", c.container)] init)]
+      | some init, some tt => [(tt, tok, render [(t!"md.container_type.type", c.container)] init)]
+      | some init, none => [(t!"None", tok, render [(t!"md.container_type.type", c.container)] init)]
       | none, _ => []
     .ok ({ spec := c, bank, runningCode := code, fields, token := tok }, n')
   | [.other] => .error .argType
@@ -379,7 +369,7 @@ inductive Rep where
   | variable (accessOp : Text)                     -- `x<accessOp>method()`
 deriving DecidableEq, Repr, Inhabited
 
-def memberOp (depth : Nat) : Text := if depth = 0 then tx "." else tx "->"
+def memberOp (depth : Nat) : Text := if depth = 0 then t!"." else t!"->"
 
 def repOf (c : CollSpec) (x : Text) : Rep :=
   match c.element with
@@ -411,14 +401,14 @@ def processNode (cv : CodeValue) (st : GenState) : Frag × GenState :=
   let frag : Frag := {
     var := x, tok := cv.token,
     decl := c.tyStr ++ ' ' :: x ++ [';'],
-    lines := code ++ [x ++ tx " = " ++ resultName ++ [';']],
+    lines := code ++ [x ++ t!" = " ++ resultName ++ [';']],
     rep := repOf c x }
   let st' : GenState := {
     counter := st.counter + 1,
     includes := addAll st.includes c.includes,
     libs := addAll st.libs c.libraries,
     classDecls := st.classDecls ++ cv.fields.map (fun f => f.1 ++ ' ' :: f.2.1 ++ [';']),
-    book := st.book ++ cv.fields.map (fun f => f.2.1 ++ tx " = " ++ substWord paramName lit f.2.2 ++ [';']) }
+    book := st.book ++ cv.fields.map (fun f => f.2.1 ++ t!" = " ++ substWord paramName lit f.2.2 ++ [';']) }
   (frag, st')
 
 /-! ## a whole job -/
